@@ -5,8 +5,10 @@ method, HTTP version, scheme, default/explicit port, host form, Host/:authority 
 query shapes, request header sets, request body x content-type x content-encoding,
 response presence / websocket, status, response header sets, framing header,
 response body x content-type (charset) x content-encoding) is built as a real HTTPFlow,
-exported with the real SaveHar.make_har, serialised like SaveHar.export_har does, read back
-with the real FlowReader (HAR branch -> har.request_to_flow) and compared field by field.
+saved through the real save path (the save.har command SaveHar.export_har: make_har, the final
+serialisation to bytes and the file write - a failure anywhere in it is an export failure), the
+file's bytes are read back with the real FlowReader (HAR branch -> har.request_to_flow) and
+compared field by field.  Header values and bodies include bytes that are not valid UTF-8.
 A case is the set of grammar dimensions that deviate from the base flow: quick = all cases
 with <= 2 deviations, thorough = <= 3 deviations, plus the full product of the two body groups
 (thorough: each such product additionally combined with every single other deviation).
@@ -358,9 +360,16 @@ def reset_caches():
 
 
 def export(flows):
-    """exactly what SaveHar.export_har writes for a path that does not end in .zhar"""
-    har = SaveHar().make_har(flows)
-    return json.dumps(har, indent=4).encode()
+    """the real save path: the save.har command (SaveHar.export_har) writes the file, incl. the final
+    serialisation of the HAR document to bytes; the bytes of that file are what gets imported"""
+    path = os.path.join(scratch_dir(), "s-%d.har" % os.getpid())
+    try:
+        SaveHar().export_har(flows, path)
+        with open(path, "rb") as fh:
+            return fh.read()
+    finally:
+        if os.path.exists(path):
+            os.unlink(path)
 
 
 def compare(spec, f, exp, g, t: Tally, case):
@@ -683,21 +692,27 @@ def replay(case, t: Tally, verbose=False):
             drop_scratch()
         return
     spec = case["flow"]
-    if verbose:
-        f, exp = build_flow(spec)
-        data = export([f])
-        print("  spec:", spec)
-        print("  exported request.httpVersion=%r response.httpVersion=%r url=%r" % (
-            json.loads(data)["log"]["entries"][0]["request"]["httpVersion"],
-            json.loads(data)["log"]["entries"][0]["response"]["httpVersion"],
-            json.loads(data)["log"]["entries"][0]["request"]["url"]))
-        flows, exc = call(lambda: list(FlowReader(io.BytesIO(data)).stream()))
-        if exc:
-            print("  import raised:", exc)
-        else:
-            g = flows[0]
-            print("  imported: %s %s %s headers=%r" % (g.request.method, g.request.url, g.request.http_version, g.request.headers.fields))
-            if g.response:
-                print("  imported response: %s %s headers=%r body=%r" % (
-                    g.response.status_code, g.response.http_version, g.response.headers.fields, g.response.raw_content))
-    one_case(spec, t)
+    scratch_dir()
+    try:
+        if verbose:
+            print("  spec:", spec)
+            f, exp = build_flow(spec)
+            data, exc = call(export, [f])
+            if exc:
+                print("  export raised:", exc)
+            else:
+                entry = json.loads(data)["log"]["entries"][0]
+                print("  exported request.httpVersion=%r response.httpVersion=%r url=%r" % (
+                    entry["request"]["httpVersion"], entry["response"]["httpVersion"], entry["request"]["url"]))
+                flows, exc = call(lambda: list(FlowReader(io.BytesIO(data)).stream()))
+                if exc:
+                    print("  import raised:", exc)
+                else:
+                    g = flows[0]
+                    print("  imported: %s %s %s headers=%r" % (g.request.method, g.request.url, g.request.http_version, g.request.headers.fields))
+                    if g.response:
+                        print("  imported response: %s %s headers=%r body=%r" % (
+                            g.response.status_code, g.response.http_version, g.response.headers.fields, g.response.raw_content))
+        one_case(spec, t)
+    finally:
+        drop_scratch()
